@@ -30,10 +30,11 @@ Fixpoint join_char (c : ascii) (l : list string) : string :=
 Fixpoint has_char (c : ascii) (s : string) : bool :=
   match s with EmptyString => false | String a r => Ascii.eqb a c || has_char c r end.
 
-Fixpoint has_prefix (p s : string) : bool :=
+(* argument order follows Go: strings.HasPrefix(s, prefix) etc. *)
+Fixpoint has_prefix (s p : string) : bool :=
   match p, s with
   | EmptyString, _ => true
-  | String a p', String b s' => Ascii.eqb a b && has_prefix p' s'
+  | String a p', String b s' => Ascii.eqb a b && has_prefix s' p'
   | _, _ => false
   end.
 
@@ -43,32 +44,46 @@ Fixpoint drop (n : nat) (s : string) : string :=
 Fixpoint take (n : nat) (s : string) : string :=
   match n, s with O, _ => EmptyString | S n', String a r => String a (take n' r) | S _, EmptyString => EmptyString end.
 
-Definition has_suffix (x s : string) : bool :=
+Definition has_suffix (s x : string) : bool :=
   Nat.leb (String.length x) (String.length s) &&
   String.eqb (drop (String.length s - String.length x) s) x.
 
-Definition trim_prefix (p s : string) : string :=
-  if has_prefix p s then drop (String.length p) s else s.
+Definition trim_prefix (s p : string) : string :=
+  if has_prefix s p then drop (String.length p) s else s.
 
-Definition trim_suffix (x s : string) : string :=
-  if has_suffix x s then take (String.length s - String.length x) s else s.
+Definition trim_suffix (s x : string) : string :=
+  if has_suffix s x then take (String.length s - String.length x) s else s.
 
-(* strings.Index for a non-empty needle: position of first occurrence *)
-Fixpoint index_from (fuel : nat) (needle s : string) (i : nat) : option nat :=
+(* strings.Index: position of the first occurrence *)
+Fixpoint index_from (fuel : nat) (s needle : string) (i : nat) : option nat :=
   match fuel with
   | O => None
-  | S f => if has_prefix needle s then Some i else
-           match s with EmptyString => None | String _ r => index_from f needle r (S i) end
+  | S f => if has_prefix s needle then Some i else
+           match s with EmptyString => None | String _ r => index_from f r needle (S i) end
   end.
-Definition str_index (needle s : string) : option nat := index_from (S (String.length s)) needle s 0.
-Definition str_contains (needle s : string) : bool := match str_index needle s with Some _ => true | None => false end.
+Definition str_index (s needle : string) : option nat := index_from (S (String.length s)) s needle 0.
+Definition str_contains (s needle : string) : bool := match str_index s needle with Some _ => true | None => false end.
 
-(* strings.Cut *)
-Definition str_cut (sep s : string) : string * string * bool :=
-  match str_index sep s with
+(* strings.Cut(s, sep) *)
+Definition str_cut (s sep : string) : string * string * bool :=
+  match str_index s sep with
   | Some i => (take i s, drop (i + String.length sep) s, true)
   | None => (s, EmptyString, false)
   end.
+
+(* strings.LastIndex *)
+Fixpoint last_index_from (fuel : nat) (s needle : string) (i : nat) (acc : option nat) : option nat :=
+  match fuel with
+  | O => acc
+  | S f => let acc' := if has_prefix s needle then Some i else acc in
+           match s with EmptyString => acc' | String _ r => last_index_from f r needle (S i) acc' end
+  end.
+Definition str_last_index (s needle : string) : option nat := last_index_from (S (String.length s)) s needle 0 None.
+
+Definition lower_ascii (c : ascii) : ascii :=
+  let n := N_of_ascii c in if (N.leb 65 n && N.leb n 90)%bool then ascii_of_N (n + 32) else c.
+Fixpoint str_lower (s : string) : string :=
+  match s with EmptyString => EmptyString | String c r => String (lower_ascii c) (str_lower r) end.
 
 (* byte-wise order: Go's < on strings *)
 Fixpoint str_ltb (a b : string) : bool :=
